@@ -1599,6 +1599,7 @@ func checkPanics(c panicCase, r *h.Rec) error {
 	msg := gen.Fill(c.Seed, n)
 	var dst, src []byte
 	var cans [][]byte
+	var spare, spareWant []byte
 	switch c.Kind {
 	case "short":
 		gs, s, sc := guarded(n, false, 0)
@@ -1607,6 +1608,22 @@ func checkPanics(c panicCase, r *h.Rec) error {
 		defer gd.Free()
 		copy(s, msg)
 		src, dst, cans = s, d, [][]byte{sc, dc}
+	case "shortcap", "emptycap":
+		// a too short dst that HAS room behind its length (seeded change C03-8-1: a
+		// reslice dst[:len(src)] before the length check turns the documented panic
+		// into a write behind len(dst)); the spare capacity is caller memory
+		gs, s, sc := guarded(n, false, 0)
+		defer gs.Free()
+		copy(s, msg)
+		heap := gen.Fill(c.Seed^0x5ca1ab1e, n+64)
+		spareWant = append([]byte{}, heap...)
+		keep := n - 1
+		if c.Kind == "emptycap" {
+			keep = 0
+		}
+		src, dst, cans = s, heap[:keep], [][]byte{sc}
+		spare = heap[keep:]
+		spareWant = spareWant[keep:]
 	default:
 		shift := map[string]int{"dst+1": 1, "dst+15": 15, "dst+16": 16, "dst-1": -1}[c.Kind]
 		a := shift
@@ -1634,6 +1651,9 @@ func checkPanics(c panicCase, r *h.Rec) error {
 		ob.call(dst, src)
 	}()
 	what := fmt.Sprintf("mode=%s dec=%v path=%s len=%d kind=%s", c.Mode, c.Dec, pathNames[c.Path], n, c.Kind)
+	if !bytes.Equal(spare, spareWant) {
+		return fmt.Errorf("call with a dst of %d bytes (src %d bytes) wrote behind len(dst) into the caller's spare capacity [%s]", len(dst), n, what)
+	}
 	if !panicked {
 		return fmt.Errorf("call with %s did not panic although the interface documents that it does [%s]", c.Kind, what)
 	}
@@ -1664,7 +1684,7 @@ func TestC03_Panics(t *testing.T) {
 						continue
 					}
 					for path := 0; path < 3; path++ {
-						for _, kind := range []string{"dst+1", "dst+15", "dst+16", "dst-1", "short"} {
+						for _, kind := range []string{"dst+1", "dst+15", "dst+16", "dst-1", "short", "shortcap", "emptycap"} {
 							if kind == "dst+16" && n <= 16 {
 								continue // adjacent, not overlapping
 							}
